@@ -443,4 +443,105 @@ theorem nbytes_eq_byteLen (n : Nat) : nbytes n = Spec.Script.byteLen n := by
     · simp only [h, dite_false]
       rw [ih (n / 256) (by omega)]
 
+/-! ### 8. C12's script helpers vs C08's builder -/
+
+open Model.Script in
+theorem recodeOp_eq_coerce (o : RawOp) (hw : o.wf) :
+    Model.Addr.recodeOp o = coerceInstance (cookTok o) := by
+  obtain ⟨h256, hd⟩ := hw
+  unfold Model.Addr.recodeOp cookTok
+  by_cases h0 : o.opcode = 0
+  · simp [h0, coerceInstance, encodeOpN]
+  · simp only [h0, if_false]
+    rcases hdd : o.data with _ | d
+    · have hgt : ¬ o.opcode ≤ 0x4e := by
+        intro hle; have := hd.mpr hle; rw [hdd] at this; simp at this
+      simp only
+      by_cases hs : 0x51 ≤ o.opcode ∧ o.opcode ≤ 0x60
+      · simp only [hs, and_self, if_true, coerceInstance]
+        have h1 : (0 : Int) ≤ ((o.opcode - 0x50 : Nat) : Int) ∧ ((o.opcode - 0x50 : Nat) : Int) ≤ 16 := by omega
+        have h2 : ¬ ((o.opcode - 0x50 : Nat) : Int) = 0 := by omega
+        simp only [h1, and_self, if_true, encodeOpN, not_true_eq_false, if_false, h2]
+        congr 2
+        have e : (81 + (((o.opcode - 80 : Nat) : Int)).toNat - 1) = o.opcode := by simp; omega
+        rw [e]
+      · simp only [hs, if_false, coerceInstance, h256, if_true]
+    · simp only [coerceInstance]
+      rfl
+
+open Model.Script in
+theorem recode_build (ops : List RawOp) (hw : ∀ o ∈ ops, o.wf) :
+    (ops.mapM Model.Addr.recodeOp).map List.flatten = build (ops.map cookTok) := by
+  induction ops with
+  | nil => rfl
+  | cons o r ih =>
+    have ih' := ih (fun x hx => hw x (by simp [hx]))
+    rw [List.mapM_cons, List.map_cons, build, ← recodeOp_eq_coerce o (hw o (by simp)), ← ih']
+    cases Model.Addr.recodeOp o with
+    | error e => rfl
+    | ok a =>
+      cases r.mapM Model.Addr.recodeOp with
+      | error e => rfl
+      | ok bs => rfl
+
+open Model.Script in
+/-- `CScript(tuple(scriptPubKey))` of C12 is cooked iteration followed by the builder of C08 -/
+theorem canonicalize_eq_build (s : Bytes) :
+    Model.Addr.canonicalize s =
+      match cooked s with
+      | (toks, none) => build toks
+      | (_, some (.iter _)) => .error .invalidscript
+      | (_, some (.py e)) => .error e := by
+  rw [cooked_eq]
+  unfold Model.Addr.canonicalize
+  have hw := (rawIter_parse s).2.2
+  rcases hq : rawIter s with ⟨ops, e⟩
+  rw [hq] at hw
+  cases e with
+  | some x => rfl
+  | none => exact recode_build ops hw
+
+/-! ### 9. WIF at the text level: C13's payload through C10's Base58Check -/
+
+theorem wif_text_roundtrip (H : Bytes → Bytes) (hH : ∀ x, 4 ≤ (H x).length) (ver : UInt8)
+    (secret : Bytes) (c : Bool) (hs : secret.length = 32) :
+    ∃ d, Model.Base58.fromBytes (Model.Keys.wifPayload secret c) (ver.toNat : Int) = .ok d ∧
+      ∃ d', Model.Base58.new H (Model.Base58.str H d) = .ok d' ∧
+        Model.Keys.wifParse ver.toNat d'.nVersion.toNat d'.data = .ok (secret, c) := by
+  obtain ⟨d, h1, _, h3⟩ := C10.check_roundtrip H hH ver (Model.Keys.wifPayload secret c)
+  exact ⟨d, h1, ⟨ver, Model.Keys.wifPayload secret c⟩, h3, C13.wif_roundtrip ver.toNat secret c hs⟩
+
+/-! ### further duplicates found by grep -/
+
+theorem addr_witness_predicates (s : Bytes) :
+    Model.Addr.isWitnessV0Keyhash s = Model.Script.isWitnessV0Keyhash s ∧
+    Model.Addr.isWitnessV0NestedKeyhash s = Model.Script.isWitnessV0NestedKeyhash s ∧
+    Model.Addr.isWitnessV0Scripthash s = Model.Script.isWitnessV0Scripthash s := by
+  unfold Model.Addr.isWitnessV0Keyhash Model.Addr.isWitnessV0NestedKeyhash Model.Addr.isWitnessV0Scripthash
+    Model.Script.isWitnessV0Keyhash Model.Script.isWitnessV0NestedKeyhash Model.Script.isWitnessV0Scripthash
+    Model.Addr.slice
+  refine ⟨?_, ?_, ?_⟩ <;> (rw [Bool.eq_iff_iff]; simp)
+
+/-- `CMutableTransaction.from_tx` of C03 and the validating constructor of C15/C16 and C09 accept the
+    same transactions -/
+theorem fromTx_eq_ctorValid (t : Tx) :
+    Model.Sighash.fromTx t = if Model.Merkle.ctorValid t then .ok t else .error .valueerr := by
+  unfold Model.Sighash.fromTx Model.Merkle.ctorValid Model.Sighash.fromTxInOk
+  have e : (t.vin.all (fun i => decide (i.prevout.hash.length = 32) && decide (i.prevout.n ≤ 0xffffffff) &&
+        decide (i.nSequence ≤ 0xffffffff)) && decide (t.nLockTime ≤ 0xffffffff)) =
+      (decide (t.nLockTime ≤ 0xffffffff) && t.vin.all (fun i =>
+        (i.prevout.hash.length == 32 && decide (i.prevout.n ≤ 0xffffffff)) && decide (i.nSequence ≤ 0xffffffff))) := by
+    rw [Bool.and_comm]
+    congr 2
+  rw [e]
+
+/-- C09's `GetHash` of a block (no `get_header()` step) and C02's agree when the two hash fields
+    are 32 bytes long -/
+theorem identOf_block (b : Block) (h1 : b.hdr.hashPrevBlock.length = 32) (h2 : b.hdr.hashMerkleRoot.length = 32) :
+    Spec.ValueSem.identOf (.block b) = Model.Ident.blockHash b := by
+  unfold Spec.ValueSem.identOf Model.Ident.blockHash Model.Ident.blockHashWith Model.Ident.getHeader
+    Model.Ident.headerHashWith
+  simp only [h1, h2, ne_eq, not_true_eq_false, if_false, bind, Except.bind, pure, Except.pure]
+  cases Model.Wire.serHeader b.hdr <;> rfl
+
 end BtcVerif.CoherenceProofs
